@@ -113,6 +113,13 @@ def run(ctx):
                  'a dropped result turns a backend failure into success')
     chains.propagation_rule(P, r, ['encode', 'decode', 'reconstruct', 'fragments_needed'], shared.IN_SCOPE_BACKENDS, 'chain')
     r.require_min(10)
+    # the adapters of the external libraries allocate on behalf of the operation too
+    r = ctx.rule('R17d', 'adapters of the external back ends (jerasure, shss, libphazr): what an operation allocates is released on every path, failing ones included',
+                 'a pointer table moved from the stack to the heap is freed before the successful return only: every failing encode / decode / reconstruct leaks it')
+    from . import c16 as _c16
+    ext = {n_ for n_, f_ in P.fns.items() if re.search(r'jerasure|shss|phazrio', f_.mod.src)}
+    _c16.run_r16a(ctx, P, r, only_fn=ext, every_backend=True)
+    r.require_min(3)
     ctx.borrow('c14', ['R14f'], 'a failed create must not change the reference count of the shared GF tables')
     ctx.borrow('c18', ['R18d'], 'a failed call must not leave the registry lock held')
-    ctx.borrow('c16', ['R16a', 'R16f', 'R16g'], 'a failing operation releases everything it allocated, exactly once')
+    ctx.borrow('c16', ['R16a', 'R16f', 'R16g', 'R16i'], 'a failing operation releases everything it allocated, exactly once')
